@@ -264,7 +264,7 @@ fn main() {
         check_backends(w, &ma, ctx);
     }));
     let meta = Meta {
-        rule: "history trees over the mask alphabet {null,0,1} (values matter only for definedness), pair tree over its square, null-free tree for the plain family; every window 1..=len+3, every min_periods in {omitted} U 0..=w (omitted only for len>=w in the extrema/rank family); all rolling entry points; law: one output per input, no panic, output null <=> valid count below max(min_periods, intrinsic minimum) or statistic undefined. Short words additionally on every input back end. Non-trivial = word with a non-null element. Also NaN kinds (mask-deep-nan-kinds) and the integer orders 1 and 2 of the fractional difference (DESIGN 5.15, 5.16). Round 8 (DESIGN 5.17): structured series of 1030 / 2100 elements.".into(),
+        rule: "history trees over the mask alphabet {null,0,1} (values matter only for definedness), pair tree over its square, null-free tree for the plain family; every window 1..=len+3, every min_periods in {omitted} U 0..=w (omitted only for len>=w in the extrema/rank family); all rolling entry points; law: one output per input, no panic, output null <=> valid count below max(min_periods, intrinsic minimum) or statistic undefined. Short words additionally on every input back end. Non-trivial = word with a non-null element. Also NaN kinds (mask-deep-nan-kinds) and the integer orders 1 and 2 of the fractional difference (DESIGN 5.15, 5.16). Round 8 (DESIGN 5.17): structured series of 1030 / 2100 elements. Round 10 (DESIGN 5.19): mask-infinite - the extrema / rank family on words over {null,-inf,0,+inf} with f64, f32 and Option<f32> elements: an infinity is an observation for the warm-up law.".into(),
         bounds: json!({
             "alphabet": json_word(&ma),
             "L": {"mask-single": single.max_len, "mask-matrix": single_m.max_len, "mask-plain": plain.max_len, "mask-values": values.max_len, "mask-pairs": pairs.max_len, "backends": be_len},
